@@ -2880,3 +2880,44 @@ def rule_membership_tables_are_collections(ctx, rep: Report, rid="T15", classes=
                         f"{ci.mod.rel}:{v.lineno}", nontrivial=is_text)
     if n < 5:
         raise AnalysisError(f"{rep.prop}/{rid}: only {n} membership tables found in the MATLAB generator")
+
+
+def rule_ignore_list_kept_as_given(ctx, rep: Report, rid="X8", classes=("PybindWrapper", "MatlabWrapper")):
+    """An entry of the ignore list is the fully qualified C++ name of a class, compared as it is with the name computed for
+    each class.  The constructors keep the list as it was handed in (the parameter itself, or a plain copy of it): an
+    entry that is rewritten on the way in - a scope prepended to names without `::`, a case change, a stripped prefix -
+    no longer equals the key of the class it names (a global class cannot be ignored any more) and may equal the key of
+    another class instead."""
+    prog = ctx.prog
+    n = 0
+    for cname in classes:
+        ci = prog.cls(cname)
+        init = ci.methods.get("__init__")
+        if init is None:
+            raise AnalysisError(f"{cname}.__init__ not found")
+        ps = func_params(init)
+        stores = [st for st in walk_no_nested(init) if isinstance(st, ast.Assign) and any(unparse(t) == "self.ignore_classes" for t in st.targets)]
+        if not stores:
+            raise AnalysisError(f"{cname}.__init__: self.ignore_classes is not assigned")
+        for st in stores:
+            n += 1
+            v = inline_locals(init, st.value)
+
+            def as_given(e) -> bool:
+                if isinstance(e, ast.Name) and e.id in ps:
+                    return True
+                if isinstance(e, ast.Call) and isinstance(e.func, ast.Name) and e.func.id in ("list", "tuple", "set", "frozenset") and len(e.args) == 1:
+                    return as_given(e.args[0])
+                if isinstance(e, ast.BoolOp) and isinstance(e.op, ast.Or):
+                    return as_given(e.values[0]) and all(isinstance(x, (ast.List, ast.Tuple)) and not x.elts for x in e.values[1:])
+                if isinstance(e, ast.IfExp):
+                    return all(as_given(x) or (isinstance(x, (ast.List, ast.Tuple)) and not x.elts) for x in (e.body, e.orelse))
+                if isinstance(e, (ast.ListComp, ast.GeneratorExp, ast.SetComp)) and len(e.generators) == 1 and not e.generators[0].ifs \
+                        and isinstance(e.generators[0].target, ast.Name) and isinstance(e.elt, ast.Name) and e.elt.id == e.generators[0].target.id:
+                    return as_given(e.generators[0].iter)          # [x for x in given]: a copy
+                return False
+            rep.add(rid, f"ignore list:{cname}.__init__:stored as it was given", as_given(v),
+                    f"self.ignore_classes = {unparse(st.value)[:80]}: the entries are rewritten before they are compared with the classes' qualified names",
+                    f"{ci.mod.rel}:{st.lineno}")
+    if n < 2:
+        raise AnalysisError(f"{rep.prop}/{rid}: {n} constructors store the ignore list")
